@@ -508,6 +508,9 @@ func (ex *Exec) applyFunc(st *State, fn *types.Func, args []*Val, e *ast.CallExp
 	var results []*Val
 	if fs != nil {
 		results = ex.applyContract(st, fn, fs, u, args, pos)
+	} else if pureLib[key] && sig.Results().Len() == 1 {
+		results = []*Val{ex.pureApp(st, fn, args)}
+		ex.wf(st, results[0])
 	} else {
 		for i := 0; i < sig.Results().Len(); i++ {
 			results = append(results, ex.freshVal(st, "ret."+fn.Name(), sig.Results().At(i).Type()))
@@ -535,6 +538,17 @@ func firstOr(s []string, d string) string {
 		return s[0]
 	}
 	return d
+}
+
+// pureLib: library functions that are deterministic and side-effect free;
+// modelled as uninterpreted functions of their arguments.
+var pureLib = map[string]bool{
+	"strconv.FormatUint": true, "strconv.Itoa": true, "strconv.FormatInt": true,
+	"strings.HasPrefix": true, "strings.HasSuffix": true, "strings.TrimSpace": true, "strings.TrimPrefix": true,
+	"strings.TrimSuffix": true, "strings.Contains": true, "strings.ReplaceAll": true, "strings.ToLower": true,
+	"filepath.Base": true, "filepath.Ext": true, "filepath.Dir": true, "filepath.Join": true,
+	"net.JoinHostPort": true, "base64.Encoding.EncodeToString": true, "sha256.Sum256": true,
+	"x509.MarshalPKIXPublicKey": false,
 }
 
 var libWriters = map[string]bool{
